@@ -29,6 +29,7 @@ use air_interpreter_signatures::PublicKey;
 use air_interpreter_signatures::Signature;
 use air_interpreter_signatures::SignatureStore;
 
+use std::collections::BTreeMap;
 use std::collections::HashMap;
 use std::rc::Rc;
 
@@ -37,7 +38,8 @@ const CANNOT_HAPPEN_IN_VERIFIED_CID_STORE: &str = "cannot happen in a checked CI
 /// An util for verificating particular data's signatures.
 pub struct DataVerifier<'data> {
     // a map from peer_id to peer's info (public key, signature, CIDS)
-    grouped_cids: HashMap<Box<str>, PeerInfo<'data>>,
+    // ordered, so that the peer named by a verification or merge error does not depend on hash order
+    grouped_cids: BTreeMap<Box<str>, PeerInfo<'data>>,
     salt: &'data str,
 }
 
@@ -56,7 +58,7 @@ impl<'data> DataVerifier<'data> {
         }
 
         // it contains signature too; if we try to add a value to a peer w/o signature, it is an immediate error
-        let mut grouped_cids: HashMap<Box<str>, PeerInfo<'data>> = data
+        let mut grouped_cids: BTreeMap<Box<str>, PeerInfo<'data>> = data
             .signatures
             .iter()
             .map(|(public_key, signature)| {
@@ -116,7 +118,7 @@ impl<'data> DataVerifier<'data> {
     // The result is same regardless argument order, so "prevous/current" terminology
     // is not used deliberately.
     pub fn merge(mut self, other: Self) -> Result<SignatureStore, DataVerifierError> {
-        use std::collections::hash_map::Entry::*;
+        use std::collections::btree_map::Entry::*;
 
         for (other_peer_pk, mut other_info) in other.grouped_cids {
             let our_info = self.grouped_cids.entry(other_peer_pk);
@@ -156,7 +158,7 @@ impl<'data> DataVerifier<'data> {
 fn collect_peers_cids_from_trace<'data>(
     trace: &'data ExecutionTrace,
     cid_info: &'data CidInfo,
-    grouped_cids: &mut HashMap<Box<str>, PeerInfo<'data>>,
+    grouped_cids: &mut BTreeMap<Box<str>, PeerInfo<'data>>,
 ) -> Result<(), DataVerifierError> {
     for elt in trace {
         match elt {
@@ -199,7 +201,7 @@ fn collect_peers_cids_from_trace<'data>(
 }
 
 fn try_push_cid<T>(
-    grouped_cids: &mut HashMap<Box<str>, PeerInfo<'_>>,
+    grouped_cids: &mut BTreeMap<Box<str>, PeerInfo<'_>>,
     peer_pk: &str,
     cid: &CID<T>,
 ) -> Result<(), DataVerifierError> {
